@@ -17,6 +17,7 @@ package client
 import (
 	"context"
 	"errors"
+	"net/http"
 	"strconv"
 
 	ct "github.com/google/certificate-transparency-go"
@@ -25,11 +26,18 @@ import (
 
 // GetRawEntries exposes the /ct/v1/get-entries result with only the JSON parsing done.
 func (c *LogClient) GetRawEntries(ctx context.Context, start, end int64) (*ct.GetEntriesResponse, error) {
+	resp, _, _, err := c.getRawEntries(ctx, start, end)
+	return resp, err
+}
+
+// getRawEntries is GetRawEntries that also hands back the HTTP response it
+// parsed, for error reporting by callers that decode the entries further.
+func (c *LogClient) getRawEntries(ctx context.Context, start, end int64) (*ct.GetEntriesResponse, *http.Response, []byte, error) {
 	if end < 0 {
-		return nil, errors.New("end should be >= 0")
+		return nil, nil, nil, errors.New("end should be >= 0")
 	}
 	if end < start {
-		return nil, errors.New("start should be <= end")
+		return nil, nil, nil, errors.New("start should be <= end")
 	}
 
 	params := map[string]string{
@@ -38,11 +46,12 @@ func (c *LogClient) GetRawEntries(ctx context.Context, start, end int64) (*ct.Ge
 	}
 
 	var resp ct.GetEntriesResponse
-	if _, _, err := c.GetAndParse(ctx, ct.GetEntriesPath, params, &resp); err != nil {
-		return nil, err
+	httpRsp, body, err := c.GetAndParse(ctx, ct.GetEntriesPath, params, &resp)
+	if err != nil {
+		return nil, nil, nil, err
 	}
 
-	return &resp, nil
+	return &resp, httpRsp, body, nil
 }
 
 // GetEntries attempts to retrieve the entries in the sequence [start, end] from the CT log server
@@ -51,7 +60,7 @@ func (c *LogClient) GetRawEntries(ctx context.Context, start, end int64) (*ct.Ge
 // retrieval operation; for more robust retrieval of parsed certificates, use GetRawEntries() and invoke
 // ct.LogEntryFromLeaf() on each individual entry.
 func (c *LogClient) GetEntries(ctx context.Context, start, end int64) ([]ct.LogEntry, error) {
-	resp, err := c.GetRawEntries(ctx, start, end)
+	resp, httpRsp, body, err := c.getRawEntries(ctx, start, end)
 	if err != nil {
 		return nil, err
 	}
@@ -60,7 +69,7 @@ func (c *LogClient) GetEntries(ctx context.Context, start, end int64) ([]ct.LogE
 		index := start + int64(i)
 		logEntry, err := ct.LogEntryFromLeaf(index, &entry)
 		if x509.IsFatal(err) {
-			return nil, err
+			return nil, RspError{Err: err, StatusCode: httpRsp.StatusCode, Body: body}
 		}
 		entries[i] = *logEntry
 	}
